@@ -62,6 +62,18 @@ Definition ix_remove (x : index) (f : folder) (i : id) : index :=
 
 Definition ix_update (x : index) (d : doc) : index := ix_add (ix_remove x (d_folder d) (d_id d)) d.
 
+(* SearchIndex::remove_vault: remove every document keyed under the folder, one [remove] each *)
+Definition in_folder (f : folder) (d : doc) : bool := folder_eqb (d_folder d) f.
+Definition ix_remove_vault (x : index) (f : folder) : index :=
+  fold_left (fun y d => ix_remove y f (d_id d)) (filter (in_folder f) (docs x)) x.
+(* SearchIndex::add_folder: one [add] per secret the folder holds *)
+Definition ix_add_folder (x : index) (ds : list doc) : index := fold_left ix_add ds x.
+(* forced overwrite of a folder (storage/client/src/sync.rs force_merge_folder, after the fix
+   'a forced overwrite of a folder refreshes its documents'): drop the folder, index its new contents *)
+Definition ix_force (x : index) (f : folder) (ds : list doc) : index := ix_add_folder (ix_remove_vault x f) ds.
+(* forget_folder / delete_folder: AccountSearch::remove_folder = remove_vault *)
+Definition ix_forget (x : index) (f : folder) : index := ix_remove_vault x f.
+
 (* recount from the documents *)
 Definition count_folder (f : folder) (x : index) : nat :=
   length (filter (fun d => folder_eqb (d_folder d) f) (docs x)).
